@@ -184,10 +184,20 @@ def _incomplete(cls, symbolic=True):
         if cls.endswith("activation"):
             return mem.calculate_activation_energy(c1)
         return mem.get_permeance(T, c1)
+    if cls in ("one_experiment_per_component_no_energy_activation", "one_experiment_per_component_no_energy_permeance"):
+        # the membrane has two experiments in total, but only one for the queried component
+        Te = real("Texp") if symbolic else 323.15
+        Te2 = real("Texp2") if symbolic else 333.15
+        exps = [IdealExperiment(name="m", temperature=Te, component=c1, permeance=build.perm(real("Pe")) if symbolic else pv.Permeance(0.03)),
+                IdealExperiment(name="m", temperature=Te2, component=c2, permeance=build.perm(real("Pe2")) if symbolic else pv.Permeance(0.002))]
+        mem = Membrane(name="m", ideal_experiments=IdealExperiments(experiments=exps))
+        if cls.endswith("activation"):
+            return mem.calculate_activation_energy(c1)
+        return mem.get_permeance(T, c1)
     raise KeyError(cls)
 
 
-CLASSES = ("mixture_without_parameters", "nrtl_parameters_missing", "nrtl_parameters_missing_partial_pressures", "uniquac_parameters_missing",
+CLASSES = ("one_experiment_per_component_no_energy_activation", "one_experiment_per_component_no_energy_permeance","mixture_without_parameters", "nrtl_parameters_missing", "nrtl_parameters_missing_partial_pressures", "uniquac_parameters_missing",
            "uniquac_constants_missing_first", "uniquac_constants_missing_second", "curve_without_fluxes_and_permeances",
            "single_experiment_no_energy_activation", "single_experiment_no_energy_permeance")
 
@@ -198,8 +208,9 @@ def incomplete(job):
         dom = []
         T, x, Te = real("T"), real("x"), real("Texp")
         dom = [T.t > 260, T.t < 420, x.t >= 0, x.t <= 1, Te.t > 273, Te.t < 400, real("Pe").t > 0]
-        if cls == "single_experiment_no_energy_permeance":
+        if cls in ("single_experiment_no_energy_permeance", "one_experiment_per_component_no_energy_permeance"):
             dom.append(T.t != Te.t)  # off the experiment's temperature
+        dom += [real("Texp2").t > 273, real("Texp2").t < 400, real("Pe2").t > 0]
         n = 0
         for leaf in job.explore(lambda: _incomplete(cls), dom, timeout_ms=300):
             n += 1
